@@ -209,6 +209,7 @@ class PySet:
         self.items = list(items or [])   # concrete hashables, kept in insertion order
         self.fresh = fresh
         self.order_determined = False    # iteration order of a str set depends on PYTHONHASHSEED
+        self.sym = []                    # abstract parts (SymColl) merged in by update(): membership only
 
 
 class SymSeq:
@@ -452,6 +453,10 @@ def nameval(x):
 
 def mk(t, ty):
     """SymV or concrete value when the term simplifies to a literal"""
+    if isinstance(t, (bool, int, float)) and not z3.is_expr(t):
+        if ty == "name" and isinstance(t, int) and not isinstance(t, bool):
+            return None if t == NONE_ID else (name_of(t) if name_of(t) is not None else NameK(t))
+        return (float(t) if ty == "real" else t)
     s = z3.simplify(t)
     if ty == "bool":
         if z3.is_true(s):
